@@ -1,4 +1,5 @@
 import Mixin.Props.C21
+import Mixin.Facts.ExpectedC22
 /-!
 # C22 — restart after a crash at any write boundary yields a consistent ledger
 
